@@ -328,6 +328,47 @@ void Exec::op_cache(const Json& o,const std::string& op){
   shp(op); shp(d); check_all(c,"C15",op);
 }
 
+// a std::vector<SU_vector> driven through growth, erase, swap and sort-like moves: every element must come out with its value
+void Exec::op_container(const Json& o){
+  std::vector<int> src; const Json& sl=o["slots"];
+  for(size_t i=0;i<sl.size()&&i<6;i++){ int s=(int)(sl[i].as_int(0)%NSLOTS); if(s<0) s=0; if(usable(s)) src.push_back(s); }
+  if(src.empty()){ skip("no usable source"); return; }
+  uint64_t seed=(uint64_t)o["vs"].as_int(1);
+  std::vector<std::vector<double> > expect; std::vector<std::vector<double> > got; bool ok_sizes=true;
+  begin("container","C15");
+  int rc=lib_call(c,[&]{
+    verif::Rng r(seed);
+    std::vector<SU_vector> box;                       // no reserve: growth relocates the elements by move construction
+    for(size_t i=0;i<src.size();i++){
+      SU_vector& v=c.slot[src[i]].v();
+      if(r.chance(0.5)) box.push_back(v); else box.push_back(SU_vector(v));
+      if(r.chance(0.4)){ box.push_back(v*2.0); }
+    }
+    verif::alloc_scope(0);
+    for(size_t i=0,k=0;i<src.size();i++){ expect.push_back(mvals(c,src[i])); k++; (void)k; }
+    verif::alloc_scope(1);
+    // rebuild the expectation in the same order as the pushes (the coin flips are replayed)
+    { verif::alloc_scope(0); expect.clear(); verif::Rng r2(seed); for(size_t i=0;i<src.size();i++){ std::vector<double> a=mvals(c,src[i]); (void)r2.chance(0.5); expect.push_back(a); if(r2.chance(0.4)){ for(size_t q=0;q<a.size();q++) a[q]*=2.0; expect.push_back(a); } } verif::alloc_scope(1); }
+    if(box.size()>=2){ std::swap(box.front(),box.back()); verif::alloc_scope(0); std::swap(expect.front(),expect.back()); verif::alloc_scope(1); }
+    if(box.size()>=3){ box.erase(box.begin()+1); verif::alloc_scope(0); expect.erase(expect.begin()+1); verif::alloc_scope(1); }   // elements shift down by move assignment
+    box.reserve(box.capacity()+7);
+    if(box.size()>=2){ box.insert(box.begin(),box.back()); verif::alloc_scope(0); expect.insert(expect.begin(),expect.back()); verif::alloc_scope(1); }
+    verif::alloc_scope(0);
+    for(size_t i=0;i<box.size();i++){ if(box[i].Size()!=expect[i].size()){ ok_sizes=false; break; } got.push_back(std::vector<double>(&box[i][0],&box[i][0]+box[i].Size())); }
+    verif::alloc_scope(1);
+  });
+  bool fired=end();
+  int st=settle(rc,fired,false,"C08","C08","container",false);
+  if(st==ST_DONE){
+    if(!ok_sizes||got.size()!=expect.size()){ violation(c,"C08","model:value-mismatch","container:size","an element of a std::vector<SU_vector> changed its dimension while the container was rearranged"); return; }
+    for(size_t i=0;i<got.size();i++) for(size_t q=0;q<got[i].size();q++) if(!same_value(got[i][q],expect[i][q])){
+      violation(c,"C08","model:value-mismatch","container","element "+std::to_string(i)+" of a std::vector<SU_vector> lost its value while the container was rearranged (push_back growth, swap, erase, reserve, insert)"); return; }
+    c.ctr->add("probe_container_checked");
+  }
+  shp("container"); shp((long)src.size());
+  check_all(c,"C08","container");
+}
+
 void Exec::run_op(const Json& o){
   std::string op=o["op"].as_str();
   if(op=="default"||op=="sized"||op=="ext"||op=="list"||op=="matrix"||op=="factory"||op=="make_aligned") op_construct(o,op);
@@ -342,6 +383,7 @@ void Exec::run_op(const Json& o){
   else if(op=="scale") op_scale(o);
   else if(op=="stmt") op_stmt(o);
   else if(op=="clear_cache"||op=="burst") op_cache(o,op);
+  else if(op=="container") op_container(o);
   else op_query(o,op);
 }
 
